@@ -1,6 +1,7 @@
 CONSTANTS
   Mrzs = {"m1", "m2"}
   OtherMrz = "m2"
+  PositionBound = TRUE
 INIT Init
 NEXT Next
 INVARIANTS Completeness Soundness FailClosed Emit
